@@ -170,7 +170,7 @@ func NewBlockCompressor(argsMap map[string]any) (*BlockCompressor, error) {
 		return nil, fmt.Errorf("'%s' is a reserved name", this.outputName)
 	}
 
-	if len(this.outputName) == 0 && this.inputName == _COMP_STDIN {
+	if len(this.outputName) == 0 && strings.EqualFold(this.inputName, _COMP_STDIN) {
 		this.outputName = _COMP_STDOUT
 	}
 
